@@ -27,9 +27,9 @@ class TreeMon:
         self.maxabs = 1.0
         if kind != "T_HOO":
             self.P["c1"] = (self.P["rho"] / (3 * self.P["nu"])) ** (1.0 / 8)
-            self.in_band = self.P["c1"] * self.P["delta"] <= 0.5
-        else:
-            self.in_band = True
+        # thresholds are judged per round, for the t+ values with c1*delta/t+ <= 1/2: there the code's min(1/2, .)
+        # and the published min(1, .) coincide (c1*delta > 1/2 only affects t+ = 1, or t+ <= 2 when c1*delta > 1)
+        self.in_band = True
         self.hoo_bound = self.hoo_ceils = None
         if kind == "T_HOO":
             P = self.P
@@ -60,6 +60,9 @@ class TreeMon:
 
     def dt(self, tp):
         return min(1.0, self.P["c1"] * self.P["delta"] / tp)
+
+    def band(self, tp):
+        return self.P["c1"] * self.P["delta"] / tp <= 0.5
 
     @staticmethod
     def _mv(r):
@@ -125,7 +128,7 @@ class TreeMon:
             if not (ch.get_b_value() >= mb or close(ch.get_b_value(), mb)):
                 self.V("C05:step_not_to_max_B_child", depth=ch.get_depth(), index=ch.get_index(),
                        b=ch.get_b_value(), max_b=mb)
-            if self.kind != "T_HOO" and par.get_depth() > 0 and self.in_band:
+            if self.kind != "T_HOO" and par.get_depth() > 0 and self.band(C.tplus(i)):
                 x = self.tau(par, C.tplus(i))
                 if True not in C.ge3(len(self.hist[id(par)]), x):
                     self.V("C05:passed_through_cell_below_threshold", depth=par.get_depth(),
@@ -133,8 +136,8 @@ class TreeMon:
         if self.kind == "T_HOO":
             if n.get_children() is not None:
                 self.V("C05:pulled_cell_is_not_a_leaf", depth=n.get_depth())
-        elif n.get_children() is not None and self.in_band:
-            x = self.tau(n, C.tplus(i))
+        elif n.get_children() is not None and (self.band(C.tplus(i)) or n.get_depth() == 0):
+            x = self.tau(n, C.tplus(i)) if self.band(C.tplus(i)) else 0.0
             if n.get_depth() == 0 or False not in C.ge3(len(self.hist[id(n)]), x):
                 self.V("C05:stopped_at_inner_cell_that_reached_threshold", depth=n.get_depth(),
                        T=len(self.hist[id(n)]), tau=x)
@@ -200,8 +203,6 @@ class TreeMon:
                 ok = u == math.inf
             elif self.kind == "T_HOO":
                 ok = close(u, self.U(x), 1e-9, 1e-9 * scale)
-            elif not self.in_band:
-                ok = True
             else:
                 kind_, r = self.refresh.get(id(x), ("n", None))
                 if r is None:
@@ -251,10 +252,15 @@ class TreeMon:
             lim_hi = max(1, max(self.hoo_ceils) + 1)
             if self.part.get_depth() > lim_hi:
                 self.V("C06:T_HOO_tree_deeper_than_bound_plus_one", depth=self.part.get_depth(), bound=x)
-        elif self.in_band:
+        else:
             was_leaf = (not expanded and n.get_children() is None) or (expanded and evs[0]["was_leaf"])
             opts = set()
-            for tp in (C.tplus(i), C.tplus(i + 1)):
+            tps = [tp for tp in (C.tplus(i), C.tplus(i + 1)) if self.band(tp)]
+            if len(tps) < 2 and n.get_depth() > 0:
+                tps = []
+                opts = {True, False}  # t+ = 1 with c1*delta > 1/2: the two clamps disagree, not judged
+                self.obs("rounds_outside_the_clamp_band_not_judged")
+            for tp in tps:
                 for rr in ((pre_r, self.hist[id(n)]) if self.kind == "VHCT" else (None,)):
                     x = self.tau(n, tp, rr)
                     for g in C.ge3(len(self.hist[id(n)]), x):
